@@ -94,28 +94,33 @@ func allProps() []Prop {
 	meBounds := map[string]string{
 		"endpoints":  "universe {A,B,C} + one unknown name; lists of 0..3 distinct names",
 		"durations":  "recovery timeout and switching delay symbolic in [0, 2^40) ns, including 0, r<d, r>d, r==d",
-		"timers":     "step harness: one live recovery timer per recovering endpoint, 0..1 orphan (removed endpoint) timer, 0..2 pending delayed switches; live timers fire in due order, equal due times in any order; variant firestopped: an already expired recovery timer whose Stop() came too late still runs its callback",
+		"timers":     "step harness: one live recovery timer per recovering endpoint; quick: 0..1 pending delayed switch; thorough additionally 0..2 pending delayed switches and 0..1 orphan (removed endpoint) timer; live timers fire in due order, equal due times in any order; variant firestopped: an already expired recovery timer whose Stop() came too late still runs its callback",
 		"clock":      "strictly increasing per timeNow call; instants < 2^50",
 		"k-step":     "real constructor + 1 (quick) / 2 (thorough) fully symbolic operations, initial list a prefix of A,B,C (by symmetry of names)",
 		"loop unroll": "6",
 	}
 	var meJobs []Job
+	addStep := func(fl []string) {
+		// quick: at most one pending delayed switch and no orphan timer ("lean"); thorough: also the full pre-state
+		meJobs = append(meJobs, Job{Dir: me, Harness: "multiendpoint", Entry: "VerifH_mestep", Flags: append(append([]string{}, fl...), "lean"), TmoMs: 60000})
+		meJobs = append(meJobs, Job{Dir: me, Harness: "multiendpoint", Entry: "VerifH_mestep", Flags: fl, TmoMs: 120000, Tier: "thorough"})
+	}
 	for _, o := range []int{0, 1, 2} {
 		for _, rz := range []int{0, 1} {
 			for _, dz := range []int{0, 1} {
 				fl := []string{fmt.Sprintf("op=%d", o), fmt.Sprintf("rz=%d", rz), fmt.Sprintf("dz=%d", dz)}
 				if o == 1 {
 					for _, ln := range []int{0, 1, 2, 3} {
-						meJobs = append(meJobs, Job{Dir: me, Harness: "multiendpoint", Entry: "VerifH_mestep", Flags: append(append([]string{}, fl...), fmt.Sprintf("ln=%d", ln)), TmoMs: 60000})
+						addStep(append(append([]string{}, fl...), fmt.Sprintf("ln=%d", ln)))
 					}
 				} else {
-					meJobs = append(meJobs, Job{Dir: me, Harness: "multiendpoint", Entry: "VerifH_mestep", Flags: fl, TmoMs: 60000})
+					addStep(fl)
 				}
 			}
 		}
 	}
 	for _, dz := range []int{0, 1} {
-		meJobs = append(meJobs, Job{Dir: me, Harness: "multiendpoint", Entry: "VerifH_mestep", Flags: []string{"op=2", "rz=0", fmt.Sprintf("dz=%d", dz), "firestopped=1"}, TmoMs: 60000})
+		meJobs = append(meJobs, Job{Dir: me, Harness: "multiendpoint", Entry: "VerifH_mestep", Flags: []string{"op=2", "rz=0", fmt.Sprintf("dz=%d", dz), "firestopped"}, TmoMs: 60000})
 	}
 	for _, n0 := range []int{0, 1, 2, 3} {
 		meJobs = append(meJobs, Job{Dir: me, Harness: "multiendpoint", Entry: "VerifH_me", Flags: []string{fmt.Sprintf("n0=%d", n0), "steps=1"}, Tier: "quick"})
